@@ -16,7 +16,9 @@ DS-LEFT - results carry the bins and name of the left operand; DS-PURE - no
 method other than __init__ writes into self, other, or aliases of their
 fields; DS-COPY - copy() hands deep-fresh value, error and bin arrays to the
 constructor.
-Not decided: element-wise numeric equality with the plain numpy operations.
+OP-DIRECT - the value of `a op b` is `a.value op b[.value]` (no delegation to
+another operator); DS-PURE has a second, inter-procedural pass (sa/effects.py
+with the numpy.ma copy=False model). Not decided: element-wise numeric equality with the plain numpy operations.
 '''
 ASSUMPTIONS = ['numpy functions outside the mutator table neither mutate '
                'their arguments nor return views that are later written']
